@@ -126,7 +126,71 @@ def shower_job(job):
     return ev
 
 
+def scale_job(job):
+    """distance scaling and the ionosphere decision table, on the same pipeline-generated showers"""
+    use_repo()
+    from nuspacesim.simulation.eas_radio.radio import EASRadio
+    from nuspacesim.config import Simulation
+    from astropy.constants import R_earth
+    import astropy.units as u
+    R = float(R_earth.to(u.km).value)
+    cfg0, (beta, alt, ln, theta, path, Esh) = shower_inputs(job["spec"], job["seed"], job["n"])
+    keep = (alt >= 0) & (alt <= 10)
+    sel = np.flatnonzero(keep)[:25]
+    if len(sel) == 0:
+        return []
+    a = [x[sel] for x in (beta, alt, ln, theta, path, Esh)]
+    ev = []
+
+    def fields(cfg):
+        with rngmod.constant(job["c"]):
+            return np.asarray(EASRadio(cfg)(*[x.copy() for x in a]), dtype=float)
+    # distance law: ionosphere switched off, reference 525 km vs other altitudes
+    ref_cfg = make_config(dict(job["spec"], altitude=525.0))
+    ref_cfg.simulation.ionosphere = None
+    ref = fields(ref_cfg)
+    for Z in (33.0, 100.0, 400.0, 2000.0, 36000.0):
+        c = make_config(dict(job["spec"], altitude=Z))
+        c.simulation.ionosphere = None
+        f = fields(c)
+        for i in range(len(sel)):
+            ev.append({"kind": "alt", "beta": bits(a[0][i]), "alt": bits(a[1][i]), "R": bits(R), "Z": bits(Z), "efRef": bits_array(ref[i]),
+                       "efZ": bits_array(f[i]), "_m": {"Z": Z, "alt": float(a[1][i]), "beta_deg": float(np.degrees(a[0][i]))}})
+    # ionosphere decision table
+    cases = []
+    for Z in (33.0, 89.9, 90.0, 90.1, 525.0):
+        for lo, hi in ((30.0, 300.0), (30.0, 80.0), (300.0, 1000.0), (200.0, 1200.0), (50.0, 300.0), (30.0, 310.0)):
+            for tec, err, present in ((10.0, 0.1, True), (5.0, 0.1, True), (7.0, 0.1, True), (10.0, 10.0, True), (10.0, 10.1, True), (-1.0, 0.1, True),
+                                      (10.0, 0.1, False), (150.0, 5.0, True)):
+                cases.append((Z, lo, hi, tec, err, present))
+    rng = np.random.default_rng(job["seed"])
+    pick = [cases[i] for i in sorted(rng.choice(len(cases), size=min(job["ncases"], len(cases)), replace=False))]
+    import io
+    import contextlib
+    for Z, lo, hi, tec, err, present in pick:
+        c_on = make_config(dict(job["spec"], altitude=Z))
+        c_on.detector.radio.low_frequency, c_on.detector.radio.high_frequency = lo, hi
+        c_off = c_on.model_copy(deep=True)
+        c_off.simulation.ionosphere = None
+        c_on.simulation.ionosphere = Simulation.Ionosphere(total_electron_content=tec, total_electron_error=err) if present else None
+        with contextlib.redirect_stdout(io.StringIO()):
+            on, off = fields(c_on), fields(c_off)
+        i = 0
+        nz = off[i] != 0
+        ratio = float(on[i][nz][0] / off[i][nz][0]) if nz.any() else 1.0
+        ev.append({"kind": "ion", "Z": bits(Z), "lo": int(lo), "hi": int(hi), "tecTimes10": int(round(tec * 10)), "tecErrTimes10": int(round(err * 10)),
+                   "ionPresent": bool(present), "on": bits_array(on[i]), "off": bits_array(off[i]), "ratio": bits(ratio), "anyNonZero": bool(nz.any()),
+                   "_m": {"Z": Z, "band": [lo, hi], "tec": tec, "tecerr": err, "present": present, "ratio": ratio}})
+    return ev
+
+
 def _dispatch(job):
+    if job["t"] == "scale":
+        try:
+            return scale_job(job)
+        except Exception as ex:
+            return [{"kind": "band", "lo": 30, "hi": 300, "nfield": -1, "ant": [-1], "noise": [-1],
+                     "_m": {"error": "radio scaling job raised: " + repr(ex)[:300]}}]
     if job["t"] == "band":
         return band_job(job)
     try:
@@ -157,6 +221,7 @@ def run(tier="quick", seed=0):
     for i, s in enumerate(specs):
         for rep in range(3 if thorough else 1):
             jobs.append({"t": "shower", "spec": s, "seed": seed * 10 + i + 100 * rep, "n": 300 if thorough else 120, "c": [0.21, 0.5, 0.83][rep]})
+    jobs.append({"t": "scale", "spec": {"altitude": 33.0, "limb": 0.05, "log_e": 10.0}, "seed": seed + 7, "n": 200, "c": 0.37, "ncases": 240 if thorough else 60})
     res = par.pmap(_dispatch, jobs, workers=14)
     ev = [e for r in res for e in r]
     pr.validate("TraceRadio", ev, name="radio-chain", chunks=12)
